@@ -197,7 +197,7 @@ def _c09() -> SimEngine:
 
 
 def _c10() -> SimEngine:
-    prof = profile(p_gname=0.5, fnames=["w", "w", "x"], sizes=[1, 2, 3, None, None],
+    prof = profile(p_gname=0.6, gname_range=(3, 1), fnames=["w", "w", "x"], sizes=[1, 2, 3, None, None], min_steps=8,
                    ops={"spawn": 10, "cancel_group": 3, "cancel_all": 0.5, "gate": 6, "cancel": 0.5, "flush": 0.3})
     return SimEngine(
         "C10",
@@ -206,7 +206,7 @@ def _c10() -> SimEngine:
         "that got a name used before. Distinct = program hash.",
         [("default", prof, 1.0)],
         lambda case, l: n_spawns(case) >= 3 and bool(l & {"cancel_group:ok", "cancel_all:ok"}) and "group:name-reused" in l,
-        n_quick=4000, n_thorough=200000, floors={"group:name-reused": 0.2})
+        n_quick=4000, n_thorough=200000, floors={"group:name-reused": 0.1})
 
 
 def _c11() -> SimEngine:
@@ -222,7 +222,7 @@ def _c11() -> SimEngine:
 
 
 def _c13() -> SimEngine:
-    prof = profile(p_cb=0.8, p_cb_async=0.7, p_cb_wait=0.6, sizes=[1, 2, 3, None], p_worker_raise=0.25, p_iter_raise=0.15, p_cb_raise=0.08,
+    prof = profile(p_cb=0.85, p_cb_async=0.8, p_cb_wait=0.8, sizes=[1, 2, 3, None], p_worker_raise=0.25, p_iter_raise=0.15, p_cb_raise=0.08, min_steps=8,
                    ops={"flush": 6, "cancel": 4, "cancel_group": 1, "spawn": 8, "gate": 7, "tick": 7, "stop": 1})
 
     def sw(tier: str):
@@ -249,7 +249,8 @@ def _c13() -> SimEngine:
 
 
 def _c14() -> SimEngine:
-    prof = profile(classes=["SimpleTaskPool"], sizes=[3, 4, None, None, None], max_num=6, p_worker_raise=0.15, p_cb_raise=0.05,
+    prof = profile(classes=["SimpleTaskPool"], sizes=[3, 4, None, None, None], max_num=6, p_worker_raise=0.15, p_cb_raise=0.05, min_script=1,
+                   stop_rel_share=7, stop_rel=[-3, -2, -2, -1, -1, -1, 0, 1, 2], min_steps=8,
                    ops={"spawn": 7, "stop": 8, "cancel": 3, "gate": 8, "tick": 6, "flush": 0.8, "cancel_group": 0.3, "close": 0.9, "unlock": 0.4},
                    cancel_refs=["run", "live", "live", "stale"])
     return SimEngine(
